@@ -13,6 +13,10 @@ CLAIMED = {
          TRUST + "std::vector::push_back modelled as append; the Lexicon object's own state is arbitrary (these members read none of it); mutable static state introduced under these functions makes the run undecided and falls back to a native sweep.", "DESIGN.md 6 (C10)"),
  "C03": ("proof", "arena::allocate is proved against a full contract (block size, writability, carved from free space or from a new object, representation invariant, frame) for every length up to 2^40; make_string against that contract and an assumed std::copy; the reserved-word lookup for every word of <= 24 arbitrary bytes against the constant table clang evaluates; intern from an arbitrary bucket state over assumed std::map/std::hash/forward_list contracts.",
          TRUST + "library contracts of DESIGN.md 5.2 (operator new, std::copy, u8string_view comparison, std::hash, std::map, forward_list, find_if, lower_bound) are assumed; bucket chains of <= 2 earlier words; L-history lifts the single-call contracts to all interning histories.", "DESIGN.md 6 (C03)"),
+ "C15": ("proof", "One loop-free obligation group per derived operation named by the property: the real inline bodies of <ipr/interface> / <ipr/ancillary> run on foreign nodes whose primitive accessors are arbitrary functions, with sizes, indices and spellings symbolic; equalities are checked as equivalences on three symbolic values.",
+         TRUST + "class-template helpers are proved at one instantiation each (same body for every element type); primitive accessors are modelled as arbitrary functions of the receiver.", "DESIGN.md 6 (C15)"),
+ "C11": ("proof", "get_qualified is proved on the lowered real code for symbolic qualifier sets and arbitrary operand nodes (plain or already qualified, built by the real constructor and read through real dynamic dispatch); the table's insert is used through its contract with the real comparator and element constructor; the comparator is proved a total order with zero set = key equality.",
+         TRUST + "insert's contract is established by C08 for the template body modulo L-tree / L-order; qualified operands are assumed in normal form (table invariant, L-history); std::less<> and std::allocator assumed.", "DESIGN.md 6 (C11)"),
 }
 m = {"version": 1,
  "setup_cmd": "python3 -c \"import sys; sys.path.insert(0,'lib'); import ipv; ipv.ensure_cxx2c()\"",
